@@ -108,7 +108,13 @@ def small_strategy(maxL):
                     idx = 'w%d_%d' % (ai, perm[i])
                 wl.append([bc, idx])
             aliases.append({'alias': 'wl%d' % ai, 'wl': wl, 'fmt': fmt, 'gz': draw(st.booleans())})
-        lazy = draw(st.sampled_from([None, None, '*', 'list', 'getitem']))
+        if len(aliases) == 2 and draw(st.integers(0, 2)) == 0:
+            # second whitelist with the SAME barcode set but another barcode -> index mapping and another file format
+            w0 = aliases[0]['wl']
+            perm2 = draw(st.permutations(list(range(len(w0)))))
+            aliases[1]['wl'] = [[w0[i][0], 'other%d' % perm2[i]] for i in range(len(w0))]
+            aliases[1]['fmt'] = draw(st.sampled_from(['index_first_tab', 'barcode_first']))
+        lazy = draw(st.sampled_from([None, None, '*', 'list', 'getitem', 'manual']))
         return {'L': L, 'k': k, 'aliases': aliases, 'lazy': lazy}
     return case()
 
@@ -132,7 +138,18 @@ def eval_small(case):
         for a in case['aliases']:
             write_whitelist(os.path.join(d, a['alias'] + '.bc' + ('.gz' if a['gz'] else '')), a['wl'], a['fmt'], a['gz'])
         try:
-            parser = make_parser(d, case['k'], case['lazy'], [a['alias'] for a in case['aliases']])
+            if case['lazy'] == 'manual':
+                # the demux.py -si / -hdi path: an empty parser, barcodes added by hand, explicit expand(k, alias)
+                from singlecellmultiomics.barcodeFileParser.barcodeFileParser import BarcodeParser
+                empty = os.path.join(d, 'empty_dir')
+                os.makedirs(empty, exist_ok=True)
+                parser = BarcodeParser(barcodeDirectory=empty)
+                for a in case['aliases']:
+                    for bc, idx in a['wl']:
+                        parser.addBarcode(index=idx, barcodeFileAlias=a['alias'], barcode=bc, hammingDistance=0, originBarcode=None)
+                    parser.expand(case['k'], alias=a['alias'])
+            else:
+                parser = make_parser(d, case['k'], case['lazy'], [a['alias'] for a in case['aliases']])
             if case['lazy'] == 'getitem':
                 # scCHIC style access of the mapping before the first lookup
                 _ = parser[case['aliases'][-1]['alias']]
@@ -310,6 +327,6 @@ def eval_shipped(case):
 def parts(tier):
     t = tier == 'thorough'
     return [
-        Part('small', eval_small, strategy=lambda: small_strategy(6 if t else 5), examples=5000 if t else 320),
-        Part('shipped', eval_shipped, strategy=shipped_strategy, examples=1600 if t else 96),
+        Part('small', eval_small, strategy=lambda: small_strategy(6 if t else 5), examples=20000 if t else 320),
+        Part('shipped', eval_shipped, strategy=shipped_strategy, examples=6400 if t else 96),
     ]
